@@ -395,8 +395,212 @@ def monomial_checks(st0, m, name, lab, tier, out):
                 for j in singles:
                     if not cmpf(f'facet[{j}]', fb_s[j], (j,)):
                         break
+    try:
+        derived_basis_checks(st0, m, mt, name, lab, tier, out, bad, maps, fv, subs, bfac, ifac)
+    except NotImplementedError:
+        out.count('derived_bases_not_implemented')
     out.sample({'seed': name, 'variant': lab, 'class': type(m).__name__, 'cells': int(nt), 'orders': [0, nmax],
                 'subdomain_tags': len(subnames)}, 1)
+
+
+def facet_normal_exact(kind, m, j, mono, fv, cell):
+    """Exact (rational) vector  int_facet x^mono n ds  with n the unit normal pointing out of `cell`: on a straight facet
+    n ds = N dt with N the (non-normalised) normal of the parametrisation, so no square root is needed.  None for
+    non-affine (non-parallelogram) quadrilateral facets."""
+    P = [tuple(Fr(float(c)) for c in m.p[:, v]) for v in fv[j]]
+    d = len(P[0])
+    nn = REF[kind]['nn']
+    cc = [sum((Fr(float(m.p[i, v])) for v in m.t[:nn, cell]), Fr(0)) / nn for i in range(d)]
+    fc = [sum((q[i] for q in P), Fr(0)) / len(P) for i in range(d)]
+    if len(P) == 1:
+        N = [Fr(1)]
+        integ = Fr(1)
+        for i, a in enumerate(mono):
+            integ *= P[0][i] ** a
+    elif len(P) == 2:
+        e = [P[1][i] - P[0][i] for i in range(2)]
+        N = [e[1], -e[0]]
+        sv = Poly.var(1, 0)
+        xs = [Poly.const(1, P[0][i]) + sv * e[i] for i in range(2)]
+        g = Poly.const(1, 1)
+        for i, a in enumerate(mono):
+            if a:
+                g = g * xs[i] ** a
+        integ = g.integrate_ref('line')
+    else:
+        if len(P) == 4 and any(P[0][i] + P[2][i] != P[1][i] + P[3][i] for i in range(3)):
+            return None
+        u = [P[1][i] - P[0][i] for i in range(3)]
+        v = [P[-1][i] - P[0][i] for i in range(3)] if len(P) == 4 else [P[2][i] - P[0][i] for i in range(3)]
+        N = [u[1] * v[2] - u[2] * v[1], u[2] * v[0] - u[0] * v[2], u[0] * v[1] - u[1] * v[0]]
+        sv, tv = Poly.var(2, 0), Poly.var(2, 1)
+        xs = [Poly.const(2, P[0][i]) + sv * u[i] + tv * v[i] for i in range(3)]
+        g = Poly.const(2, 1)
+        for i, a in enumerate(mono):
+            if a:
+                g = g * xs[i] ** a
+        integ = g.integrate_ref('quad' if len(P) == 4 else 'tri')
+    if sum(N[i] * (fc[i] - cc[i]) for i in range(d)) < 0:
+        N = [-x for x in N]
+    return [integ * x for x in N]
+
+
+def derived_basis_checks(st0, m, mt, name, lab, tier, out, bad, maps, fv, subs, bfac, ifac):
+    """The same exact integrals through bases that are DERIVED from another basis or built with explicitly passed parts:
+    boundary() / with_element() / with_elements(), an explicitly restricted affine mapping, oriented facet sets (normal
+    integrals), custom quadrature whose weights come in another dtype."""
+    from skfem import CellBasis, FacetBasis, Functional
+    from skfem.generic_utils import OrientedBoundary
+    import skfem.element as SE
+    kind = st0.kind
+    dim = REF[kind]['dim']
+    nt = m.t.shape[1]
+    E = default_elem(kind)
+    E0 = {'line': SE.ElementLineP0, 'tri': SE.ElementTriP0, 'quad': SE.ElementQuad0, 'tet': SE.ElementTetP0, 'hex': SE.ElementHex0,
+          'wedge': None}[kind]
+    n = min(ORD[tier][kind], 3)
+    monos = [mn for mn in monomials_of_degree(dim, n)]
+    admissible = [mn for mn in monos if all(order_admits(kind, exact_cell_integral(kind, Fm, det, mn)[1], n) for Fm, det, _ in maps)]
+    cb = CellBasis(mt, E(), intorder=n)
+    per_cell = {mn: [exact_cell_integral(kind, Fm, det, mn)[0] * sg for Fm, det, sg in maps] for mn in admissible}
+
+    volc = [abs(float(exact_cell_integral(kind, Fm, det, (0,) * dim)[0])) for Fm, det, _ in maps]
+    pmax_c = float(np.abs(m.p).max())
+
+    def cmp_cells(label, basis, cells):
+        for mn in admissible:
+            es = float(sum((per_cell[mn][c] for c in cells), Fr(0)))
+            # scale of the integrand, not of the (possibly cancelling) integral
+            mg = sum(abs(float(per_cell[mn][c])) for c in cells) + (1 + pmax_c) ** sum(mn) * sum(volc[c] for c in cells) * 1e-3
+            out.ev()
+            gs = Functional(mono_fun(mn)).assemble(basis)
+            if abs(gs - es) > 4e-12 * (mg + abs(es)):
+                bad('derived-basis-cells', f"integral of x^{mn} over cells {list(cells)[:6]} through {label} (order {n}) = {gs!r}, "
+                    f"exact {es!r}", order=n, monomial=mn, basis=label)
+                return False
+            el = Functional(mono_fun(mn)).elemental(basis)
+            ec = np.array([float(per_cell[mn][c]) for c in cells])
+            if el.shape != ec.shape or np.abs(el - ec).max() > 4e-12 * (np.abs(ec).max() + mg):
+                bad('derived-basis-cell-elemental', f"per-cell integrals of x^{mn} through {label} (order {n}) differ from the exact "
+                    f"ones of cells {list(cells)[:6]} in this order", order=n, monomial=mn, basis=label)
+                return False
+        out.nt((name, lab, 'derived', label))
+        return True
+    # --- cell bases derived from cb
+    allc = list(range(nt))
+    if E0 is not None:
+        cmp_cells('CellBasis.with_element(P0)', cb.with_element(E0()), allc)
+    orders = [list(range(nt))[::-1]]
+    if nt >= 3:
+        orders += [[2, 0, 1], [nt - 1, 0]]
+    if nt >= 2:
+        orders += [[1, 0], [nt - 1]]
+    for I in orders:
+        Ia = np.array(I, dtype=np.int32)
+        cmp_cells(f'CellBasis.with_elements({I})', cb.with_elements(Ia), I)
+        # explicitly restricted affine mapping (the default mapping of simplicial meshes)
+        from skfem.mapping import MappingAffine
+        if isinstance(mt._mapping(), MappingAffine):
+            cmp_cells(f'CellBasis(mapping=MappingAffine(mesh, tind={I}), elements={I})',
+                      CellBasis(mt, E(), mapping=MappingAffine(mt, tind=Ia), elements=Ia, intorder=n), I)
+    for sn in sorted(subs)[:3]:
+        if subs[sn]:
+            cmp_cells(f"CellBasis.with_elements('{sn}')", cb.with_elements(sn), subs[sn])
+    # --- custom quadrature: the values of the weights count, not their dtype
+    X, W = cb.quadrature
+    W32 = np.asarray(W).astype(np.float32)
+    for dt in (np.float32, np.float16):
+        Wd = W32.astype(np.float16).astype(dt) if dt is np.float16 else W32
+        b1 = CellBasis(mt, E(), quadrature=(X, Wd))
+        b2 = CellBasis(mt, E(), quadrature=(X, Wd.astype(np.float64)))
+        out.ev()
+        if b1.dx.dtype != np.float64 or np.abs(b1.dx - b2.dx).max() > 1e-15 * np.abs(b2.dx).max():
+            bad('quadrature-weight-dtype', f"CellBasis(quadrature=(X, W)) with {np.dtype(dt).name} weights: dx has dtype {b1.dx.dtype} / "
+                f"differs from the same weights as float64 by {np.abs(b1.dx - b2.dx).max():.3e}", basis='CellBasis')
+    if kind == 'wedge':
+        return
+    # --- facet bases derived from cb / from another facet basis
+    fe = {}
+    for mn in monos:
+        for j in range(m.facets.shape[1]):
+            r = facet_exact(kind, m, j, mn, fv)
+            fe[(mn, j)] = None if r is None else float(r[0]) * math.sqrt(float(r[1]))
+
+    fm = {}
+    for j in range(m.facets.shape[1]):
+        r = facet_exact(kind, m, j, (0,) * dim, fv)
+        fm[j] = 0.0 if r is None else float(r[0]) * math.sqrt(float(r[1]))
+    pmax = float(np.abs(m.p).max())
+
+    def cmp_facets(label, basis, fac):
+        for mn in monos:
+            if any(fe[(mn, j)] is None for j in fac):
+                continue
+            es = sum(fe[(mn, j)] for j in fac)
+            mg = sum(abs(fe[(mn, j)]) for j in fac) + 1e-300
+            out.ev()
+            gs = Functional(mono_fun(mn)).assemble(basis)
+            if abs(gs - es) > 4e-12 * (mg + abs(es) + (1 + pmax) ** sum(mn) * sum(fm[j] for j in fac) * 1e-3):
+                bad('derived-basis-facets', f"integral of x^{mn} over facets {list(fac)[:8]} through {label} (order {n}) = {gs!r}, exact "
+                    f"{es!r}", order=n, monomial=mn, basis=label)
+                return False
+        out.nt((name, lab, 'derived', label))
+        return True
+    cmp_facets('CellBasis.boundary(intorder=n)', cb.boundary(intorder=n), bfac)
+    cb_low = CellBasis(mt, E(), intorder=0)
+    cmp_facets('CellBasis(intorder=0).boundary(intorder=n)', cb_low.boundary(intorder=n), bfac)
+    pair = [bfac[0], bfac[-1]]
+    cmp_facets(f'CellBasis.boundary({pair}, intorder=n)', cb.boundary(np.array(pair, dtype=np.int32), intorder=n), pair)
+    fb = FacetBasis(mt, E(), intorder=n)
+    if E0 is not None:
+        cmp_facets('FacetBasis.with_element(P0)', fb.with_element(E0()), bfac)
+    Xf, Wf = fb.quadrature
+    Wf32 = np.asarray(Wf).astype(np.float32)
+    b1 = FacetBasis(mt, E(), quadrature=(Xf, Wf32))
+    b2 = FacetBasis(mt, E(), quadrature=(Xf, Wf32.astype(np.float64)))
+    out.ev()
+    if b1.dx.dtype != np.float64 or np.abs(b1.dx - b2.dx).max() > 1e-15 * np.abs(b2.dx).max():
+        bad('quadrature-weight-dtype', f"FacetBasis(quadrature=(X, W)) with float32 weights: dx has dtype {b1.dx.dtype} / differs from "
+            f"the same weights as float64 by {np.abs(b1.dx - b2.dx).max():.3e}", basis='FacetBasis')
+    # --- oriented facet sets: int x^mono n ds with n pointing out of the cell the orientation names, directly and through
+    #     with_element(); all orientation patterns of up to three interior facets plus two boundary facets
+    sel = [int(j) for j in ifac[:3]]
+    if not sel:
+        return
+    for bits in itertools.product((0, 1), repeat=len(sel)):
+        fac = np.array(sel[::-1] + pair[:1], dtype=np.int32)          # unsorted on purpose
+        ori = np.array(list(bits)[::-1] + [0], dtype=np.int32)
+        ob = OrientedBoundary(fac, ori)
+        fbo = FacetBasis(mt, E(), facets=ob, intorder=n)
+        derived = [('FacetBasis(facets=OrientedBoundary)', fbo)]
+        if E0 is not None:
+            derived.append(('FacetBasis(facets=OrientedBoundary).with_element(P0)', fbo.with_element(E0())))
+        for label, basis in derived:
+            okb = True
+            for mn in monos:
+                want = [Fr(0)] * dim
+                mg = 0.0
+                skip = False
+                for j, o in zip(fac, ori):
+                    r = facet_normal_exact(kind, m, int(j), mn, fv, int(m.f2t[o, j]))
+                    if r is None:
+                        skip = True
+                        break
+                    want = [a + b for a, b in zip(want, r)]
+                    mg += sum(abs(float(x)) for x in r)
+                if skip:
+                    continue
+                out.ev()
+                got = Functional(lambda w, mn=mn: mono_fun(mn)(w) * w.n).assemble(basis)
+                wantf = np.array([float(x) for x in want])
+                if np.shape(got) != (dim,) or np.abs(got - wantf).max() > 4e-12 * (mg + 1e-300):
+                    bad('oriented-facets-normal-integral', f"int x^{mn} n ds over the oriented facets {fac.tolist()} (orientation "
+                        f"{ori.tolist()}) through {label} = {np.asarray(got).tolist()}, exact {wantf.tolist()}", order=n, monomial=mn,
+                        basis=label, facets=fac.tolist(), ori=ori.tolist())
+                    okb = False
+                    break
+            if okb and any(bits):
+                out.nt((name, lab, 'oriented', label, bits))
 
 
 # ---------------------------------------------------------------------------------------
